@@ -168,3 +168,6 @@ M("C10", "paste_without_snapping", "odc/geo/overlap.py", "            A_ = snap_
 M("C10", "maybe_int_truncates", "odc/geo/math.py", "        return int(x_whole)\n", "        return int(x)\n", "near-integers just below are truncated")
 M("C10", "ttol_doubled", "odc/geo/overlap.py", "        paste_ok, _ = _can_paste(A, ttol=ttol, stol=stol)", "        paste_ok, _ = _can_paste(A, ttol=2.5 * ttol, stol=stol)", "translation tolerance 2.5x the stated one")
 M("C10", "shrink_overlap_native_shape", "odc/geo/overlap.py", "            roi_src, roi_dst = box_overlap(_src.shape, dst.shape, A_)\n            roi_src = scaled_up_roi(roi_src, read_shrink)", "            roi_src, roi_dst = box_overlap(src.shape, dst.shape, A_)\n            roi_src = scaled_up_roi(roi_src, read_shrink)", "overview overlap computed with the native source shape")
+
+M("C20", "snap_tol_ignored", "odc/geo/math.py", "    _x0 = floor(maybe_int(x0 / res, tol))\n    _x1 = ceil(maybe_int(x1 / res, tol))", "    _x0 = floor(x0 / res)\n    _x1 = ceil(x1 / res)", "snap_grid ignores the tolerance: covers, but is not minimal")
+M("C03", "shrink_overlap_native_shape", "odc/geo/overlap.py", "            roi_src, roi_dst = box_overlap(_src.shape, dst.shape, A_)\n            roi_src = scaled_up_roi(roi_src, read_shrink)", "            roi_src, roi_dst = box_overlap(src.shape, dst.shape, A_)\n            roi_src = scaled_up_roi(roi_src, read_shrink)", "overview overlap computed with the native source shape")
